@@ -3,6 +3,8 @@ CONSTANTS MaxSteps = 3
           FreeSteps = 1
           Scope = "quick"
           Caller = TRUE
+          Edits = FALSE
+          Pairs = "no"
           Extend = FALSE
 INIT Init
 NEXT NextGen
